@@ -250,7 +250,7 @@ Proof.
     intros x w Hx Hw. unfold leave in Hw. destruct (v_global x) eqn:Gx.
     - rewrite (user_name_global_any s x Gx), <- (user_name_global_any sr x Gx). exact (c_rep _ _ _ _ CF x w (proj1 (Hag x Gx) Hx) Hw).
     - rewrite Frame; [exact (Crep x w Hx Hw)| | | |].
-      + intros y Hy Gy Heq. pose proof (Cinj x y Hx Hy Heq) as Sv. unfold same_var in Sv. apply andb_true_iff in Sv as [_ Sg].
+      + intros y Hy Gy Heq. pose proof (Cinj x y Hx Hy Heq) as Sv. unfold same_var in Sv. apply andb_true_iff in Sv as [Sv _]. apply andb_true_iff in Sv as [_ Sg].
         apply Bool.eqb_prop in Sg. rewrite Gx, Gy in Sg. discriminate.
       + intros c y Hc. exact (Fc4 x c y Hx Hc).
       + intros k _. exact (Fc1 x k Hx).
@@ -328,4 +328,81 @@ Theorem calls_preserved defs script d klo mlo pos : (forall F, In F defs -> fun_
   exists X b', b_code s' = b_code s ++ X /\ lruns (call_of script d) pos b [] X (b', out) /\ represents sg' b' s' XS.
 Proof.
   intros Hok. exact (loops_preserved (call_of script d) pos (call_of_mono script d) klo mlo (scall_at defs d klo mlo) (calls_refined defs script Hok d klo mlo)).
+Qed.
+
+(* ---- where the pieces of fun_ok come from: the translation of a definition ---- *)
+Lemma params_fold_lines : forall names st i, (0 < b_funcs st)%nat ->
+  let r := fst (fold_left (fun (acc : bstate * nat) p => let '(st, i) := acc in (add_line (LLocalParam (var_name st p false) i) st, S i)) names (st, i)) in
+  b_code r = b_code st ++ param_lines (b_func_counter st) names i /\ b_funcs r = b_funcs st /\ b_func_counter r = b_func_counter st /\
+  b_for_counter r = b_for_counter st.
+Proof.
+  induction names as [|n r IH]; intros st i Hf; cbn [fold_left fst param_lines].
+  - rewrite app_nil_r. repeat split.
+  - destruct (IH (add_line (LLocalParam (var_name st n false) i) st) (S i) Hf) as (A & B & C & D).
+    cbn zeta in A, B, C, D. rewrite A, B, C, D. cbn [add_line b_code b_funcs b_func_counter b_for_counter].
+    rewrite (var_name_local st n Hf), <- app_assoc. repeat split.
+Qed.
+
+Lemma func_start_lines f names rets s0 :
+  let sf := cv_func_start bstate atom bash_conv f names rets s0 in
+  b_code sf = b_code s0 ++ [LFuncOpen f] ++ param_lines (S (b_func_counter s0)) names 1 /\
+  b_funcs sf = S (b_funcs s0) /\ b_func_counter sf = S (b_func_counter s0) /\ b_for_counter sf = b_for_counter s0.
+Proof.
+  cbv zeta. unfold bash_conv. cbn [cv_func_start].
+  match goal with |- context [fold_left ?g names (?a0, 1%nat)] => destruct (params_fold_lines names a0 1%nat) as (A & B & C & D) end.
+  { cbn [add_line b_funcs]. lia. }
+  cbn zeta in A, B, C, D. rewrite A, B, C, D. cbn [add_line b_code b_funcs b_func_counter b_for_counter]. rewrite <- app_assoc. repeat split.
+Qed.
+
+Lemma go_fix_app : forall a b s u s', go_fix (a ++ b) s = TOk u s' -> exists sm, go_fix a s = TOk tt sm /\ go_fix b sm = TOk u s'.
+Proof.
+  induction a as [|x r IH]; intros b s u s' H; [exists s; split; [reflexivity|exact H]|].
+  cbn [app go_fix] in H. mb H as u1 s1 H1 H2. destruct (IH b s1 u s' H2) as (sm & Ha & Hb).
+  exists sm. split; [cbn [go_fix]; unfold mbind; rewrite H1; destruct u1; exact Ha|exact Hb].
+Qed.
+
+Lemma find_def_app f : forall pre r, (forall n, In (LFuncOpen n) pre -> n <> f) -> find_def f (pre ++ LFuncOpen f :: r) = Some r.
+Proof.
+  induction pre as [|l pre IH]; intros r Hn.
+  - cbn [app find_def]. rewrite beq_refl. reflexivity.
+  - cbn [app]. assert (find_def f (pre ++ LFuncOpen f :: r) = Some r) as E by (apply IH; intros n Hin; apply Hn; right; exact Hin).
+    destruct l; cbn [find_def]; try exact E.
+    destruct (beq name f) eqn:B; [|exact E]. apply beq_eq in B. exfalso. exact (Hn name (or_introl eq_refl) B).
+Qed.
+
+Lemma args_e3 : forall es s vs s', args_fix es s = TOk vs s' -> emits3 s s'.
+Proof.
+  induction es as [|e r IH]; intros s vs s' H; [mr H; apply e3_refl|].
+  cbn [args_fix] in H. mb H as va s1 H1 H2. mb H2 as vr s2 H2 H3. mr H3.
+  eapply e3_trans; [exact (e3_expr _ _ _ _ _ H1)|exact (IH _ _ _ H2)].
+Qed.
+
+(* func f(params) rets { body; return es }: the states of fun_ok, the function's number, and its lines in any script that
+   contains the translated code and has no earlier definition of the same name *)
+Theorem definition_in_script f rets params body es pub s0 s0' later :
+  t_stmt bash_conv (SFunc f rets params (body ++ [SReturn es]) pub) s0 = TOk tt s0' -> frag2_all body = true ->
+  (forall n, In (LFuncOpen n) (b_code s0) -> n <> f) ->
+  let sf := cv_func_start bstate atom bash_conv f (map v_name params) rets s0 in
+  exists sb sr X,
+    go_fix body sf = TOk tt sb /\ t_stmt bash_conv (SReturn es) sb = TOk tt sr /\ b_code sr = b_code sf ++ X /\
+    b_funcs sf = S (b_funcs s0) /\ b_func_counter sf = S (b_func_counter s0) /\ b_for_counter sf = b_for_counter s0 /\
+    b_for_counter s0' = b_for_counter sr /\
+    find_def f (b_code s0' ++ later) = Some (param_lines (b_func_counter sf) (map v_name params) 1 ++ X ++ ([LClose] ++ later)).
+Proof.
+  intros H Hfrag Hno. cbv zeta. set (sf := cv_func_start bstate atom bash_conv f (map v_name params) rets s0).
+  destruct (func_start_lines f (map v_name params) rets s0) as (A & B & C & D). fold sf in A, B, C, D.
+  cbn [t_stmt] in H. mb H as u0 s1 H0 H1. mu H0. subst s1. fold sf in H1. mb H1 as u1 sr H1 H2.
+  assert (go_fix (body ++ [SReturn es]) sf = TOk u1 sr) as Hg by (destruct body; exact H1).
+  destruct (go_fix_app body [SReturn es] sf u1 sr Hg) as (sb & Hb & Hr).
+  cbn [go_fix] in Hr. mb Hr as u2 sr' Hr1 Hr2. mr Hr2. destruct u2.
+  destruct (go_e3 body (all_e3 body) Hfrag sf tt sb Hb) as (X1 & E1 & _ & _).
+  destruct (return_decompose es sb tt sr Hr1) as (vs & sx & Ha & E3).
+  destruct (args_e3 es sb vs sx Ha) as (X2 & E2 & _ & _).
+  pose proof (cext_trans _ _ _ _ _ E1 (cext_trans _ _ _ _ _ E2 E3)) as E.
+  set (X := X1 ++ X2 ++ rv_lines vs 0 ++ [LReturn]) in *.
+  rewrite bash_func_end in H2. pose proof (cx_funcs _ _ _ E) as Hfs. rewrite B in Hfs. rewrite Hfs in H2. cbv zeta in H2. inversion H2; subst s0'; clear H2.
+  exists sb, sr, X. split; [exact Hb|]. split; [exact Hr1|]. split; [exact (cx_code _ _ _ E)|].
+  split; [exact B|]. split; [exact C|]. split; [exact D|]. split; [reflexivity|].
+  cbn [add_line b_code]. rewrite (cx_code _ _ _ E), A, C. rewrite <- !app_assoc. cbn [app].
+  exact (find_def_app f (b_code s0) _ Hno).
 Qed.
